@@ -1,7 +1,134 @@
-(* Property C16 — statements only. *)
+(* Property C16 — VCF output states exactly the genotypes of the tree sequence.
+   Statements only: every theorem is closed by [exact] of a lemma proved in C16/*.v;
+   ./check evaluates Print Assumptions for each on every run.
+
+   Reading guide.  C16/Model.v: [vcf_body] = the data lines VcfWriter.write produces,
+   as the code is (incl. the position-zero check on the raw site_mask argument);
+   [vcf_body_fixed] = the same with the one-word repair `~self.site_mask`.
+   C16/Spec.v: [line_text] = CHROM POS ID REF ALT . PASS . GT + one '|'-joined field per
+   individual, [gt_char] = '.' for a masked or missing call, [unmasked] = the
+   (id, site) pairs whose mask entry is False, in site order; [wf_input] = a non-empty
+   layout of ploidies >= 1 and, at the unmasked sites, one genotype per output column
+   and at least one allele (what __init__ and ts.variants guarantee). *)
 From Coq Require Import List ZArith Bool.
-From TskVerif Require Import Base.Common C16.Model.
+From TskVerif Require Import Base.Common C16.Model C16.Spec C16.TemplateProofs C16.BodyProofs
+  C16.MappingProofs.
+Import ListNotations.
 Open Scope Z_scope.
 
-Theorem gt_char_missing : forall m, gt_char m (-1) = 46.
-Proof. intros m; unfold gt_char; destruct m; reflexivity. Qed.
+(* One line per unmasked site, in site order; POS = transformed position, ID = site
+   id, REF = first allele, ALT = the remaining alleles (or "."), phased GT fields
+   regrouped by individual, '.' for missing / masked calls.  (Repaired check.) *)
+Theorem vcf_lines_exact : forall inp lines, wf_input inp -> vcf_body_fixed inp = Ok lines ->
+  lines = map (fun x => line_text (vi_contig inp) (vi_ploidies inp) (fst x) (snd x))
+              (unmasked (vi_sites inp) (mask_bools (length (vi_sites inp)) (vi_site_mask inp))).
+Proof. exact vcf_lines_exact_fixed. Qed.
+
+(* ... with the exact error behaviour: ValueError iff the mask has the wrong length,
+   an UNMASKED site has transformed position 0 (unless allowed), more than 9 alleles
+   or a wrong-length sample mask. *)
+Theorem vcf_body_is_spec : forall inp, wf_input inp -> vcf_body_fixed inp = spec_body inp.
+Proof. exact vcf_body_fixed_spec. Qed.
+
+(* The code as it is equals the repaired one whenever site_mask is None or a numpy
+   bool array — so both theorems above hold for the unchanged code on those forms. *)
+Theorem vcf_body_bool_masks : forall inp, bool_form (vi_site_mask inp) -> vcf_body inp = vcf_body_fixed inp.
+Proof. exact bool_masks_as_fixed. Qed.
+
+(* The template mechanism of write(): building the int8 array once and overwriting the
+   call slots per site yields exactly the joined GT fields, whatever was there before. *)
+Theorem gt_template_fill : forall ps vals cs,
+  ps <> [] -> Forall (fun p => 1 <= p) ps ->
+  length vals = total_calls ps -> length cs = total_calls ps ->
+  gt_template ps = Ok (weave (repeat 0 (total_calls ps)) (final_seps ps), evens_from 0 (total_calls ps))
+  /\ scatter (weave vals (final_seps ps)) (evens_from 0 (total_calls ps)) cs
+     = Ok (join_with TAB (map gt_field (chunks (map Z.to_nat ps) cs)) ++ [NL]).
+Proof. exact template_fill. Qed.
+
+(* The regrouping by individuals / ploidy is a partition of the columns, in order. *)
+Theorem gt_regroup_partition : forall (A : Type) (ps : list nat) (l : list A),
+  length l = fold_right Nat.add O ps ->
+  concat (chunks ps l) = l /\ map (@length A) (chunks ps l) = ps.
+Proof. intros A. exact (@chunks_partition A). Qed.
+
+(* ... and the layout itself: without individuals the samples in runs of [ploidy]; *)
+Theorem sample_mapping_ploidy : forall nodes ni ploidy groups,
+  Forall (fun s => node_individual nodes s = -1) (sample_ids nodes) ->
+  make_sample_mapping nodes ni ploidy None = Ok groups ->
+  concat groups = sample_ids nodes
+  /\ exists p, 1 <= p /\ (match ploidy with Some q => p = q | None => p = 1 end)
+               /\ Forall (fun g => zlen g = p) groups.
+Proof. exact mapping_ploidy_partition. Qed.
+
+(* with an `individuals` argument the nodes of the listed individuals, in that order. *)
+Theorem sample_mapping_individuals : forall nodes ni ploidy inds groups,
+  make_sample_mapping nodes ni ploidy (Some inds) = Ok groups ->
+  inds <> [] /\ groups = map (individual_nodes nodes) inds
+  /\ Forall (fun i => 0 <= i < ni) inds
+  /\ Forall (fun g => g <> [] /\ uniform_flags nodes g) groups.
+Proof. exact mapping_individuals. Qed.
+
+(* Masked sites influence neither the output nor whether an error is raised:
+   two inputs that agree on everything except the content (position, alleles,
+   genotypes, sample-mask row) of MASKED sites behave identically — repaired check; *)
+Theorem masked_sites_irrelevant : forall inp inp',
+  vi_contig inp = vi_contig inp' -> vi_ploidies inp = vi_ploidies inp' ->
+  vi_allow_position_zero inp = vi_allow_position_zero inp' ->
+  mask_bools (length (vi_sites inp)) (vi_site_mask inp) = mask_bools (length (vi_sites inp')) (vi_site_mask inp') ->
+  agree (vi_sites inp) (vi_sites inp') (mask_bools (length (vi_sites inp)) (vi_site_mask inp)) ->
+  vcf_body_fixed inp = vcf_body_fixed inp'.
+Proof. exact masked_sites_irrelevant_fixed. Qed.
+
+(* — and the code as it is, for None / bool-array masks. *)
+Theorem masked_sites_irrelevant_as_coded_bool_masks : forall inp inp',
+  bool_form (vi_site_mask inp) -> bool_form (vi_site_mask inp') ->
+  vi_contig inp = vi_contig inp' -> vi_ploidies inp = vi_ploidies inp' ->
+  vi_allow_position_zero inp = vi_allow_position_zero inp' ->
+  mask_bools (length (vi_sites inp)) (vi_site_mask inp) = mask_bools (length (vi_sites inp')) (vi_site_mask inp') ->
+  agree (vi_sites inp) (vi_sites inp') (mask_bools (length (vi_sites inp)) (vi_site_mask inp)) ->
+  vcf_body inp = vcf_body inp'.
+Proof. exact masked_sites_irrelevant_bool_masks. Qed.
+
+(* FALSE for the code as it is with other mask forms (finding F6): a masked site's
+   position decides whether ValueError is raised (integer-array mask [1; 0]) ... *)
+Theorem masked_site_position_zero_refuted : exists inp inp',
+  vi_contig inp = vi_contig inp' /\ vi_ploidies inp = vi_ploidies inp' /\
+  vi_allow_position_zero inp = vi_allow_position_zero inp' /\ vi_site_mask inp = vi_site_mask inp' /\
+  agree (vi_sites inp) (vi_sites inp') (mask_bools (length (vi_sites inp)) (vi_site_mask inp)) /\
+  wf_input inp /\ wf_input inp' /\
+  vcf_body inp <> vcf_body inp' /\ vcf_body_fixed inp = vcf_body_fixed inp'.
+Proof. exact BodyProofs.masked_site_position_zero_refuted. Qed.
+
+(* ... an unmasked site at position 0 is written although allow_position_zero=False ... *)
+Theorem unmasked_position_zero_missed_refuted : exists inp lines,
+  wf_input inp /\ vi_allow_position_zero inp = false /\
+  In (0, site0 0) (unmasked (vi_sites inp) (mask_bools (length (vi_sites inp)) (vi_site_mask inp))) /\
+  vcf_body inp = Ok lines /\ vcf_body_fixed inp = Err E_VALUE.
+Proof. exact BodyProofs.unmasked_position_zero_missed_refuted. Qed.
+
+(* ... and a python list / tuple mask is a TypeError whenever allow_position_zero=False. *)
+Theorem site_mask_list_typeerror : forall contig ps sites l,
+  length l = length sites ->
+  vcf_body (mk_input contig ps sites (MPyList l) false) = Err E_TYPE.
+Proof. exact list_mask_typeerror. Qed.
+
+(* Header: sample names are the given ones (their number must match) or tsk_0.. ;
+   they follow the nine fixed columns; the contig length is the largest of 1, the
+   transformed sequence length and the last transformed position (masked or not). *)
+Theorem header_names_and_contig :
+  (forall given n, header_names given n =
+      match given with
+      | None => Ok (default_names n)
+      | Some l => if Nat.eqb (length l) n then Ok l else Err E_VALUE
+      end)
+  /\ (forall n, length (default_names n) = n)
+  /\ (forall names, names <> [] ->
+        chrom_line names =
+        join_with TAB ([[35; 67; 72; 82; 79; 77]; [80; 79; 83]; [73; 68]; [82; 69; 70]; [65; 76; 84];
+                        [81; 85; 65; 76]; [70; 73; 76; 84; 69; 82]; [73; 78; 70; 79];
+                        [70; 79; 82; 77; 65; 84]] ++ names))
+  /\ (forall tl pos, contig_length tl pos = Z.max (last pos 1) (Z.max 1 tl)
+                     \/ (pos = [] /\ contig_length tl pos = Z.max 1 tl)).
+Proof.
+  exact (conj header_names_spec (conj default_names_length (conj chrom_line_names contig_length_spec))).
+Qed.
